@@ -73,16 +73,187 @@ var locAccessors = map[string][]string{
 var mergedAccessors = []string{"Form", "FormValue", "DefaultQuery", "Bind", "ShouldBind", "BodyParser", "AllParams"}
 
 func checkC05(c *Ctx, r *Report) {
-	w := c.W
 	r.NotDecided = append(r.NotDecided, "value round-tripping through five HTTP frameworks (header canonicalisation, percent-decoding, integer widths beyond the strconv bit size spelled in the template)", "the conversion switch beyond arm coverage and bit sizes")
 	r.Assume = append(r.Assume, "accessor vocabularies per location are enumerated from the five engines' current templates (tables in the checker); identifiers are matched by spelling in template Go text")
 
+	checkEngineParsing(c, r, map[string]string{"a": "C05.a", "b": "C05.b", "c": "C05.c", "d": "C05.d"})
+
+	// C05.e requiredness (shared with C06.f)
+	checkRequiredness(c, r, "C05.e")
+
+	// C05.f conversion arms cover the primitives validation lets through
+	checkConversionArms(c, r, "C05.f")
+
+	// order producer (shared with C06.a)
+	ruleNoReorder(c, r, "C05.c", "(core/metadata.ReceiverMeta).Reduce", "ReceiverMeta.Reduce")
+	ruleNoReorder(c, r, "C05.c", "(*core/arbitrators.AstArbitrator).GetFuncParametersMeta", "GetFuncParametersMeta")
+}
+
+// checkConversionArms: literals tested by request.switch.param.type are the same in the
+// five engines and cover the universe types that validateNonBodyParam accepts.
+func checkConversionArms(c *Ctx, r *Report, clause string) {
+	w := c.W
+	perEngine := map[string][]string{}
+	bitSizes := map[string]map[string]string{}
+	for _, en := range c.T.Order {
+		eng := c.T.Engines[en]
+		t := eng.Partials["RequestSwitchParamType"]
+		if t == nil {
+			continue
+		}
+		set := map[string]bool{}
+		bitSizes[en] = map[string]string{}
+		var walk func(p *hast.Program)
+		walk = func(p *hast.Program) {
+			if p == nil {
+				return
+			}
+			for _, st := range p.Body {
+				b, ok := st.(*hast.BlockStatement)
+				if !ok {
+					continue
+				}
+				if b.Expression.HelperName() == "if" && len(b.Expression.Params) == 1 {
+					if sub, ok := b.Expression.Params[0].(*hast.SubExpression); ok && sub.Expression.HelperName() == "OrEqual" && len(sub.Expression.Params) == 4 {
+						if sl, ok := sub.Expression.Params[1].(*hast.StringLiteral); ok {
+							set[sl.Value] = true
+							// bit size spelled in the strconv call of this arm
+							toks := goToks(flattenProgram(b.Program, nil))
+							for i, tk := range toks {
+								if tk.Lit == "strconv" && i+2 < len(toks) {
+									call := toks[i+2].Lit
+									size := ""
+									for j := i; j < len(toks) && j < i+14; j++ {
+										if toks[j].Tok == token.RPAREN {
+											if toks[j-1].Tok == token.INT {
+												size = toks[j-1].Lit
+											}
+											break
+										}
+									}
+									bitSizes[en][sl.Value] = call + "/" + size
+									break
+								}
+							}
+						}
+					}
+				}
+				walk(b.Program)
+				walk(b.Inverse)
+			}
+		}
+		walk(t.Prog)
+		for k := range set {
+			perEngine[en] = append(perEngine[en], k)
+		}
+		sort.Strings(perEngine[en])
+	}
+	// same arms everywhere
+	ref := perEngine[c.T.Order[0]]
+	for _, en := range c.T.Order[1:] {
+		ruleSetEqual(c, r, clause, "conversion-arms:"+c.T.Order[0]+"=="+en, "the same primitive kinds are converted by every engine", c.T.Order[0]+" arms", ref, en+" arms", perEngine[en], []string{c.T.Engines[en].Partials["RequestSwitchParamType"].File + ":1"})
+	}
+	// bit sizes: the parse width of each sized kind equals the declared width
+	for _, en := range c.T.Order {
+		viol := ""
+		t := c.T.Engines[en].Partials["RequestSwitchParamType"]
+		want := map[string]string{"int8": "ParseInt/8", "int16": "ParseInt/16", "int32": "ParseInt/32", "int64": "ParseInt/64", "uint8": "ParseUint/8", "uint16": "ParseUint/16", "uint32": "ParseUint/32", "uint64": "ParseUint/64", "float32": "ParseFloat/32", "float64": "ParseFloat/64"}
+		for k, v := range want {
+			if got := bitSizes[en][k]; got != v {
+				viol = fmt.Sprintf("%s: the %s arm parses with strconv.%s (want %s): values outside the declared width are truncated by the following conversion instead of being answered 422", en, k, got, v)
+			}
+		}
+		o := r.add(clause, "setagree", en+":conversion-bit-sizes", en+": each sized numeric kind is parsed with its own bit size, so out-of-range input fails conversion", []string{t.File}, []string{t.File + ":1"}, viol)
+		o.NonTrivial = true
+	}
+	// coverage of what validation accepts: validateNonBodyParam lets a universe type through
+	// only if isBindablePrimitive says so; that table must be covered by the arms
+	accepted, pos := w.globalMapKeys("core/validators", "bindablePrimitiveTypes")
+	if len(accepted) == 0 {
+		// no restriction in the validator: every universe primitive is accepted
+		prim := w.lookupType("common", "PrimitiveType")
+		accepted = values(w.constsOfType(prim))
+	}
+	if fi := need(c, r, clause, "(core/validators.ReceiverValidator).validateNonBodyParam"); fi != nil {
+		viol := ""
+		var ss []string
+		calls := callsIn(fi.SSA, false, nameIs("core/validators.isBindablePrimitive"))
+		for _, cl := range calls {
+			ss = append(ss, w.pos(cl.Pos()))
+		}
+		ss = append(ss, w.pos(pos))
+		if len(calls) == 0 {
+			viol = "validateNonBodyParam accepts universe types without consulting the table of primitives the routers can convert"
+		} else {
+			// cut-set: `return nil` (accept) must be unreachable once the edges "isBindablePrimitive
+			// answered true" and "not a universe type" (enum / primitive alias) are removed
+			avoid := map[edge]bool{}
+			for _, b := range fi.SSA.Blocks {
+				if len(b.Instrs) == 0 {
+					continue
+				}
+				ifi, ok := b.Instrs[len(b.Instrs)-1].(*ssa.If)
+				if !ok || len(b.Succs) != 2 {
+					continue
+				}
+				for i, s := range b.Succs {
+					cnd, pol := unwrapNot(ifi.Cond, i == 0)
+					a := sliceOf(cnd)
+					if (a.Calls["core/validators.isBindablePrimitive"] && pol) || (a.Calls["(core/metadata.TypeUsageMeta).IsUniverseType"] && !pol && len(a.Calls) == 1) {
+						avoid[edge{b, s}] = true
+					}
+				}
+			}
+			reach, used := reachAvoiding(fi.SSA, nil, avoid)
+			for _, ex := range exitsOf(fi.SSA) {
+				if ex.Ret == nil {
+					continue
+				}
+				v := ex.Ret.Results[0]
+				accept := isNilConst(v)
+				isReach := reach[ex.Block]
+				if phi, ok := v.(*ssa.Phi); ok && ex.Pred != nil {
+					for i, e := range phi.Edges {
+						if ex.Block.Preds[i] == ex.Pred {
+							accept = isNilConst(e)
+						}
+					}
+					isReach = reach[ex.Pred] && used[edge{ex.Pred, ex.Block}]
+				}
+				if accept && isReach {
+					viol = fmt.Sprintf("%s: a parameter can be accepted on a path where it is a universe type that was not found bindable", w.pos(retPos(ex)))
+				}
+			}
+		}
+		o := r.add(clause, "guardedby", fi.Key+":accept-only-bindable", "a universe-typed header/path/query/form parameter is accepted only if it is in the table of convertible primitives", []string{fi.Key}, ss, viol)
+		o.NonTrivial = true
+	}
+	if fi := need(c, r, clause, "core/validators.isBindablePrimitive"); fi != nil {
+		a := newAtoms()
+		for _, ex := range exitsOf(fi.SSA) {
+			if ex.Ret != nil {
+				backSlice(ex.Ret.Results[0], a, map[ssa.Value]bool{}, 0)
+			}
+		}
+		viol := ""
+		if !a.Globals["core/validators.bindablePrimitiveTypes"] {
+			viol = "isBindablePrimitive does not consult bindablePrimitiveTypes"
+		}
+		r.add(clause, "fieldflow", fi.Key+":table", "isBindablePrimitive is a lookup in bindablePrimitiveTypes", []string{fi.Key}, []string{w.pos(fi.Decl.Pos())}, viol)
+	}
+	ruleSubset(c, r, clause, "accepted-universe-primitives⊆conversion-arms", "every primitive kind that validateNonBodyParam lets through has a conversion arm in the handlers; otherwise <name>Raw is left unused and the generated file does not compile / the parameter stays unbound", "primitives accepted for header/path/query/form (validators.bindablePrimitiveTypes)", accepted, "request.switch.param.type arms", ref, []string{c.T.Engines[c.T.Order[0]].Partials["RequestSwitchParamType"].File + ":1"})
+}
+
+// checkEngineParsing: per-engine rules on the argument-parsing templates; clause names are
+// supplied by the caller (C05 claims them for binding, C12 for engine interchangeability).
+func checkEngineParsing(c *Ctx, r *Report, cl map[string]string) {
+	w := c.W
 	want := values(w.constsOfType(w.lookupType("definitions", "ParamPassedIn")))
 	for _, en := range c.T.Order {
 		eng := c.T.Engines[en]
 		t := eng.Partials["RequestArgsParsing"]
 		if t == nil {
-			r.undecided("C05.a", "tpl", en+":RequestArgsParsing", "", "partial missing")
+			r.undecided(cl["a"], "tpl", en+":RequestArgsParsing", "", "partial missing")
 			continue
 		}
 		arms := equalArms(t.Prog, "PassedIn")
@@ -91,7 +262,7 @@ func checkC05(c *Ctx, r *Report) {
 			lits = append(lits, l)
 		}
 		sort.Strings(lits)
-		ruleSetEqual(c, r, "C05.a", en+":location-arms==PassedIn*", en+": request.args.parsing has exactly one arm per declared parameter location", "definitions.PassedIn* constants", want, en+" {{#equal PassedIn ..}} arms", lits, []string{t.File + ":1"})
+		ruleSetEqual(c, r, cl["a"], en+":location-arms==PassedIn*", en+": request.args.parsing has exactly one arm per declared parameter location", "definitions.PassedIn* constants", want, en+" {{#equal PassedIn ..}} arms", lits, []string{t.File + ":1"})
 
 		for _, loc := range lits {
 			b := arms[loc]
@@ -188,7 +359,7 @@ func checkC05(c *Ctx, r *Report) {
 					viol = fmt.Sprintf("%s %s arm: no accessor of the %s location is used (vocabulary %v)", en, loc, loc, locAccessors[loc])
 				}
 			}
-			o := r.add("C05.b", "tpl-types", key, en+": the "+loc+" arm binds from the "+loc+" location only, under NameInSchema, into a variable typed from TypeMeta, and runs conversion + validator", []string{t.File}, sites, viol)
+			o := r.add(cl["b"], "tpl-types", key, en+": the "+loc+" arm binds from the "+loc+" location only, under NameInSchema, into a variable typed from TypeMeta, and runs conversion + validator", []string{t.File}, sites, viol)
 			o.NonTrivial = true
 		}
 
@@ -215,7 +386,7 @@ func checkC05(c *Ctx, r *Report) {
 					viol = fmt.Sprintf("%s: {{%s}} in the parsing partials resolves to %q, expected %s", en, p, got[p], f)
 				}
 			}
-			o := r.add("C05.b", "tpl-types", en+":parsing-reads", en+": wire name, location, validator, type and import serial are read from the current FuncParam", []string{t.File}, sites, viol)
+			o := r.add(cl["b"], "tpl-types", en+":parsing-reads", en+": wire name, location, validator, type and import serial are read from the current FuncParam", []string{t.File}, sites, viol)
 			o.NonTrivial = true
 		}
 
@@ -272,7 +443,7 @@ func checkC05(c *Ctx, r *Report) {
 					viol = en + ": arguments are not comma separated"
 				}
 			}
-			o := r.add("C05.c", "tpl-types", en+":MethodParameterList", en+": arguments are passed in FuncParams (signature) order: context params get the request context, by-address params the pointer, others the dereferenced value", []string{mp.File}, sites, viol)
+			o := r.add(cl["c"], "tpl-types", en+":MethodParameterList", en+": arguments are passed in FuncParams (signature) order: context params get the request context, by-address params the pointer, others the dereferenced value", []string{mp.File}, sites, viol)
 			o.NonTrivial = true
 		}
 
@@ -280,7 +451,7 @@ func checkC05(c *Ctx, r *Report) {
 		for _, pn := range []string{"RunValidator", "ParamsValidationErrorResponse", "JsonBodyValidationErrorResponse"} {
 			pt := eng.Partials[pn]
 			if pt == nil {
-				r.undecided("C05.d", "tpl", en+":"+pn, "", "partial missing")
+				r.undecided(cl["d"], "tpl", en+":"+pn, "", "partial missing")
 				continue
 			}
 			src := flattenProgram(pt.Prog, nil)
@@ -339,173 +510,9 @@ func checkC05(c *Ctx, r *Report) {
 					viol = fmt.Sprintf("%s %s: no response is written before returning", en, pn)
 				}
 			}
-			o := r.add("C05.d", "tpl-order", en+":"+pn+":422+return", en+": "+pn+" answers 422 and leaves the handler", []string{pt.File}, []string{pt.File + ":1"}, viol)
+			o := r.add(cl["d"], "tpl-order", en+":"+pn+":422+return", en+": "+pn+" answers 422 and leaves the handler", []string{pt.File}, []string{pt.File + ":1"}, viol)
 			o.NonTrivial = true
 		}
 	}
 
-	// C05.e requiredness (shared with C06.f)
-	checkRequiredness(c, r, "C05.e")
-
-	// C05.f conversion arms cover the primitives validation lets through
-	checkConversionArms(c, r)
-
-	// order producer (shared with C06.a)
-	ruleNoReorder(c, r, "C05.c", "(core/metadata.ReceiverMeta).Reduce", "ReceiverMeta.Reduce")
-	ruleNoReorder(c, r, "C05.c", "(*core/arbitrators.AstArbitrator).GetFuncParametersMeta", "GetFuncParametersMeta")
-}
-
-// checkConversionArms: literals tested by request.switch.param.type are the same in the
-// five engines and cover the universe types that validateNonBodyParam accepts.
-func checkConversionArms(c *Ctx, r *Report) {
-	w := c.W
-	perEngine := map[string][]string{}
-	bitSizes := map[string]map[string]string{}
-	for _, en := range c.T.Order {
-		eng := c.T.Engines[en]
-		t := eng.Partials["RequestSwitchParamType"]
-		if t == nil {
-			continue
-		}
-		set := map[string]bool{}
-		bitSizes[en] = map[string]string{}
-		var walk func(p *hast.Program)
-		walk = func(p *hast.Program) {
-			if p == nil {
-				return
-			}
-			for _, st := range p.Body {
-				b, ok := st.(*hast.BlockStatement)
-				if !ok {
-					continue
-				}
-				if b.Expression.HelperName() == "if" && len(b.Expression.Params) == 1 {
-					if sub, ok := b.Expression.Params[0].(*hast.SubExpression); ok && sub.Expression.HelperName() == "OrEqual" && len(sub.Expression.Params) == 4 {
-						if sl, ok := sub.Expression.Params[1].(*hast.StringLiteral); ok {
-							set[sl.Value] = true
-							// bit size spelled in the strconv call of this arm
-							toks := goToks(flattenProgram(b.Program, nil))
-							for i, tk := range toks {
-								if tk.Lit == "strconv" && i+2 < len(toks) {
-									call := toks[i+2].Lit
-									size := ""
-									for j := i; j < len(toks) && j < i+14; j++ {
-										if toks[j].Tok == token.RPAREN {
-											if toks[j-1].Tok == token.INT {
-												size = toks[j-1].Lit
-											}
-											break
-										}
-									}
-									bitSizes[en][sl.Value] = call + "/" + size
-									break
-								}
-							}
-						}
-					}
-				}
-				walk(b.Program)
-				walk(b.Inverse)
-			}
-		}
-		walk(t.Prog)
-		for k := range set {
-			perEngine[en] = append(perEngine[en], k)
-		}
-		sort.Strings(perEngine[en])
-	}
-	// same arms everywhere
-	ref := perEngine[c.T.Order[0]]
-	for _, en := range c.T.Order[1:] {
-		ruleSetEqual(c, r, "C05.f", "conversion-arms:"+c.T.Order[0]+"=="+en, "the same primitive kinds are converted by every engine", c.T.Order[0]+" arms", ref, en+" arms", perEngine[en], []string{c.T.Engines[en].Partials["RequestSwitchParamType"].File + ":1"})
-	}
-	// bit sizes: the parse width of each sized kind equals the declared width
-	for _, en := range c.T.Order {
-		viol := ""
-		t := c.T.Engines[en].Partials["RequestSwitchParamType"]
-		want := map[string]string{"int8": "ParseInt/8", "int16": "ParseInt/16", "int32": "ParseInt/32", "int64": "ParseInt/64", "uint8": "ParseUint/8", "uint16": "ParseUint/16", "uint32": "ParseUint/32", "uint64": "ParseUint/64", "float32": "ParseFloat/32", "float64": "ParseFloat/64"}
-		for k, v := range want {
-			if got := bitSizes[en][k]; got != v {
-				viol = fmt.Sprintf("%s: the %s arm parses with strconv.%s (want %s): values outside the declared width are truncated by the following conversion instead of being answered 422", en, k, got, v)
-			}
-		}
-		o := r.add("C05.f", "setagree", en+":conversion-bit-sizes", en+": each sized numeric kind is parsed with its own bit size, so out-of-range input fails conversion", []string{t.File}, []string{t.File + ":1"}, viol)
-		o.NonTrivial = true
-	}
-	// coverage of what validation accepts: validateNonBodyParam lets a universe type through
-	// only if isBindablePrimitive says so; that table must be covered by the arms
-	accepted, pos := w.globalMapKeys("core/validators", "bindablePrimitiveTypes")
-	if len(accepted) == 0 {
-		// no restriction in the validator: every universe primitive is accepted
-		prim := w.lookupType("common", "PrimitiveType")
-		accepted = values(w.constsOfType(prim))
-	}
-	if fi := need(c, r, "C05.f", "(core/validators.ReceiverValidator).validateNonBodyParam"); fi != nil {
-		viol := ""
-		var ss []string
-		calls := callsIn(fi.SSA, false, nameIs("core/validators.isBindablePrimitive"))
-		for _, cl := range calls {
-			ss = append(ss, w.pos(cl.Pos()))
-		}
-		ss = append(ss, w.pos(pos))
-		if len(calls) == 0 {
-			viol = "validateNonBodyParam accepts universe types without consulting the table of primitives the routers can convert"
-		} else {
-			// cut-set: `return nil` (accept) must be unreachable once the edges "isBindablePrimitive
-			// answered true" and "not a universe type" (enum / primitive alias) are removed
-			avoid := map[edge]bool{}
-			for _, b := range fi.SSA.Blocks {
-				if len(b.Instrs) == 0 {
-					continue
-				}
-				ifi, ok := b.Instrs[len(b.Instrs)-1].(*ssa.If)
-				if !ok || len(b.Succs) != 2 {
-					continue
-				}
-				for i, s := range b.Succs {
-					cnd, pol := unwrapNot(ifi.Cond, i == 0)
-					a := sliceOf(cnd)
-					if (a.Calls["core/validators.isBindablePrimitive"] && pol) || (a.Calls["(core/metadata.TypeUsageMeta).IsUniverseType"] && !pol && len(a.Calls) == 1) {
-						avoid[edge{b, s}] = true
-					}
-				}
-			}
-			reach, used := reachAvoiding(fi.SSA, nil, avoid)
-			for _, ex := range exitsOf(fi.SSA) {
-				if ex.Ret == nil {
-					continue
-				}
-				v := ex.Ret.Results[0]
-				accept := isNilConst(v)
-				isReach := reach[ex.Block]
-				if phi, ok := v.(*ssa.Phi); ok && ex.Pred != nil {
-					for i, e := range phi.Edges {
-						if ex.Block.Preds[i] == ex.Pred {
-							accept = isNilConst(e)
-						}
-					}
-					isReach = reach[ex.Pred] && used[edge{ex.Pred, ex.Block}]
-				}
-				if accept && isReach {
-					viol = fmt.Sprintf("%s: a parameter can be accepted on a path where it is a universe type that was not found bindable", w.pos(retPos(ex)))
-				}
-			}
-		}
-		o := r.add("C05.f", "guardedby", fi.Key+":accept-only-bindable", "a universe-typed header/path/query/form parameter is accepted only if it is in the table of convertible primitives", []string{fi.Key}, ss, viol)
-		o.NonTrivial = true
-	}
-	if fi := need(c, r, "C05.f", "core/validators.isBindablePrimitive"); fi != nil {
-		a := newAtoms()
-		for _, ex := range exitsOf(fi.SSA) {
-			if ex.Ret != nil {
-				backSlice(ex.Ret.Results[0], a, map[ssa.Value]bool{}, 0)
-			}
-		}
-		viol := ""
-		if !a.Globals["core/validators.bindablePrimitiveTypes"] {
-			viol = "isBindablePrimitive does not consult bindablePrimitiveTypes"
-		}
-		r.add("C05.f", "fieldflow", fi.Key+":table", "isBindablePrimitive is a lookup in bindablePrimitiveTypes", []string{fi.Key}, []string{w.pos(fi.Decl.Pos())}, viol)
-	}
-	ruleSubset(c, r, "C05.f", "accepted-universe-primitives⊆conversion-arms", "every primitive kind that validateNonBodyParam lets through has a conversion arm in the handlers; otherwise <name>Raw is left unused and the generated file does not compile / the parameter stays unbound", "primitives accepted for header/path/query/form (validators.bindablePrimitiveTypes)", accepted, "request.switch.param.type arms", ref, []string{c.T.Engines[c.T.Order[0]].Partials["RequestSwitchParamType"].File + ":1"})
 }
